@@ -89,6 +89,10 @@ Lits == [
   nonstreffect |-> EObj(<<Pair(EStr(<<97>>), ECall(EVar(N_print), <<EInt(1)>>)),
                           Pair(EInt(1), ECall(EVar(N_print), <<EInt(2)>>)), Pair(EStr(<<98>>), ECall(EVar(N_print), <<EInt(3)>>))>>),
   nonstrfail   |-> EObj(<<Pair(ENull, EProp(EVar(Q), <<122, 122>>))>>),
+  prefixkeys   |-> EObj(<<Pair(EStr(<<97>>), EInt(1)), Pair(EStr(<<97, 32, 98>>), EInt(2)), Pair(EStr(<<97, 33>>), EInt(3)),
+                          Pair(EStr(<<>>), EInt(4)), Pair(EStr(<<32>>), EInt(5)), Pair(EStr(<<33>>), EInt(6)), Pair(EStr(<<97, 97>>), EInt(7)),
+                          Pair(EStr(<<10>>), EInt(8)), Pair(EStr(<<97, 10>>), EInt(9)),
+                          Pair(EStr(<<110>>), EObj(<<Pair(EStr(<<107>>), EInt(1)), Pair(EStr(<<107, 32>>), EInt(2)), Pair(EStr(<<>>), EInt(3))>>))>>),
   nestedspread |-> EObj(<<Pair(EStr(<<111>>), EObj(<<PSpread(EVar(Q))>>)), PSpread(EVar(Q))>>)
 ]
 
@@ -119,6 +123,7 @@ C12Params ==
     \cup { <<"lit", <<>>, l>> : l \in DOMAIN Lits }
     \cup { <<"opalias", <<>>, f>> : f \in OpAliasForms }
     \cup { <<"eqkeys", <<>>, kx>> : kx \in DOMAIN EqKeys }
+    \cup { <<"proptargets", <<>>, f>> : f \in {"dotdot", "dotidx", "vardot", "nested", "objpat"} }
 
 C12ProgOf(p) ==
     CASE p[1] = "hist" ->
@@ -139,6 +144,17 @@ C12ProgOf(p) ==
             \o [i \in 1 .. 3 |-> SAssign(EIndex(EVar(O), EStr(Keys[PermKeys[p[2][i]]])), EInt(p[2][i]))]
             \o [i \in 1 .. 3 |-> SAssign(EIndex(EVar(Q), EStr(Keys[PermKeys[p[2][3 + i]]])), EInt(p[2][3 + i]))]
             \o <<SPrint(EBin("==", EVar(O), EVar(Q)))>> \o Observe(O) \o Observe(Q)
+      \* `o.k` and `o["k"]` are the same target also inside a pattern; two objects may be given the same key
+      [] p[1] = "proptargets" ->
+            <<SDecl(EVar(O), EObj(<<Pair(EStr(<<97>>), EInt(0))>>)), SDecl(EVar(Q), EObj(<<>>)), SDecl(EVar(<<97>>), EInt(0)),
+              (CASE p[3] = "dotdot" -> SAssign(EPat(<<EProp(EVar(O), <<97>>), EProp(EVar(Q), <<97>>)>>), EList(<<EInt(5), EInt(6)>>))
+                 [] p[3] = "dotidx" -> SAssign(EPat(<<EProp(EVar(O), <<97>>), EIndex(EVar(Q), EStr(<<97>>))>>), EList(<<EInt(5), EInt(6)>>))
+                 [] p[3] = "vardot" -> SAssign(EPat(<<EVar(<<97>>), EProp(EVar(O), <<97>>)>>), EList(<<EInt(7), EInt(8)>>))
+                 [] p[3] = "nested" -> SAssign(EPat(<<EProp(EVar(O), <<97>>), EPat(<<EProp(EVar(Q), <<97>>), EVar(<<97>>)>>)>>),
+                                               EList(<<EInt(1), EList(<<EInt(2), EInt(3)>>)>>))
+                 [] p[3] = "objpat" -> SAssign(EObj(<<Pair(EStr(<<120>>), EProp(EVar(O), <<97>>)), Pair(EStr(<<121>>), EProp(EVar(Q), <<97>>))>>),
+                                               EObj(<<Pair(EStr(<<120>>), EInt(1)), Pair(EStr(<<121>>), EInt(2))>>))),
+              SPrint(EVar(O)), SPrint(EVar(Q)), SPrint(EVar(<<97>>))>>
       [] p[1] = "eqkeys" ->
             <<SDecl(EVar(O), EqKeys[p[3]][1]), SDecl(EVar(Q), EqKeys[p[3]][2]),
               SPrint(EBin("==", EVar(O), EVar(Q))), SPrint(EBin("!=", EVar(O), EVar(Q))), SPrint(EBin("==", EVar(Q), EVar(O)))>>
